@@ -446,6 +446,24 @@ def _history_walk(m):
             mm = _re.fullmatch(_re.escape(K) + r"\[([\w$.]+)\]", t)
             if mm:
                 out.append((lp, K, t, mm.group(1), "index"))
+    # the walk is the loop in which the elements are merged; a loop that only counts the elements is not it
+    def merges(lp):
+        return any(c.k == "CallExpr" and c.j.get("callee") == "econf_mergeFiles" for c in lp.walk())
+    if any(merges(w[0]) for w in out):
+        out = [w for w in out if merges(w[0])]
+    elif out or True:
+        alt = []
+        for lp in m.walk():
+            if lp.k not in ("WhileStmt", "ForStmt") or any(y.k in ("WhileStmt", "ForStmt", "DoStmt") for y in lp.ancestors()) or not merges(lp):
+                continue
+            for c in lp.walk():
+                if c.k == "CallExpr" and c.j.get("callee") == "econf_mergeFiles" and len(c.call_args()) == 3:
+                    t = render(c.call_args()[2])
+                    mm = _re.fullmatch(_re.escape(K) + r"\[([\w$.]+)\]", t)
+                    if mm:
+                        alt.append((lp, K, t, mm.group(1), "index"))
+        if alt:
+            out = alt
     return out
 
 
@@ -569,7 +587,35 @@ def l10_l11(prog, ctx):
     else:
         why.append("no equality test of basename(%s) with the basename of a later element's path (strcmp calls compare %s)" % (cur_path, srcs or "nothing of that kind"))
         okm, cutm = cfg.all_paths_cut(mb, lambda lit, b, i: False)
-    if not why:
+    unknown_cmp = [c for c in m.calls(("strcmp", "strcoll", "strverscmp")) if c.within(outer0) and not any(x.string_value() is not None for x in c.call_args())]
+    # whatever the form: the search for a namesake among the later elements may only stop early when it found one.  Stopping at
+    # the first name that sorts behind the current one assumes a list sorted by name - the history is sorted per directory only.
+    for c in m.calls(("strcmp", "strcoll", "strverscmp")):
+        if not c.within(outer0):
+            continue
+        il = next((a2 for a2 in c.ancestors() if a2.k in ("WhileStmt", "ForStmt", "DoStmt") and a2 is not outer0), None)
+        if il is None:
+            continue
+        res = set()
+        up = c.up()
+        if up is not None and up.k == "DeclStmt":
+            res |= set(d["name"] for d in up.j.get("decls", []))
+        elif up is not None and up.k == "BinaryOperator" and up.j.get("op") == "=":
+            res.add(render(up.children[0]))
+        ihb2 = cfg.loop_header(il)
+        nl2 = cfg.natural_loop(ihb2)
+        for (b, i, s2) in cfg.edges():
+            if b in nl2 and b != ihb2 and s2 not in nl2:
+                lit = cfg.edge_lit(b, i)
+                if lit is not None and lit.kind == "lt" and (any(render(x) in res for x in (lit.lhs, lit.rhs)) or c.within(lit.node) or lit.node is c):
+                    ctx.fail("L10", "the search for a later namesake stops early only when it found one", lit.node.where,
+                             "the scan is left on `%s`: that is right only if the names behind the current element are sorted, but the history is sorted "
+                             "per directory - a namesake in a later directory is missed and the masked file is merged" % lit, key="mask-sorted-assumption")
+    if not cmpc and unknown_cmp:
+        # names are compared, but not as basename(<element>->path) of two locals: the masking may be there in a form this rule does not read
+        ctx.inconclusive("L10", "a drop-in is skipped when a later file has the same name", unknown_cmp[0].where,
+                         "names are compared as `%s`: not the basename(path) comparison the rule knows" % render(unknown_cmp[0]))
+    elif not why:
         ctx.ok("L10", "a drop-in is skipped when a later file has the same name", cmpc[0].where,
                "scan of the elements behind the current one comparing basename(path); equality ends the scan before its end, and the merge runs only when the scan reached the end")
     else:
@@ -695,6 +741,29 @@ def l15_l17(prog, ctx):
                      key="abs-path-resolved")
         elif rps:
             ctx.ok("L16", "a file found under an absolute name is stored under that name", rps[0].where, "realpath() only on the `*%s != '/'` branch" % pname)
+        # ... and on the absolute branch the name is copied, not rewritten
+        def absolute(lit, b, i):
+            if lit is None or lit.kind != "eq":
+                return False
+            for x, y in ((lit.lhs, lit.rhs), (lit.rhs, lit.lhs)):
+                if y.const_value() == 47 and render(x) in ("*" + pname, pname + "[0]"):
+                    return lit.pol
+            return False
+        retvars = set(render(r.children[0]) for r in gap.returns() if r.children and r.children[0].strip().k == "DeclRefExpr")
+        for lhs, rhs, st in gap.assignments():
+            nm = lhs["name"] if isinstance(lhs, dict) else render(lhs)
+            if nm not in retvars or rhs is None or rhs.is_null_const():
+                continue
+            oka, cuta = cfg.all_paths_cut(cfg.block_of(st), absolute)
+            if not (oka and cuta):
+                continue
+            if render(rhs.strip()) in ("strdup(%s)" % pname, pname):
+                ctx.ok("L16", "an absolute name is stored letter for letter", st.where, "%s = %s" % (nm, render(rhs)))
+            else:
+                ctx.fail("L16", "an absolute name is stored letter for letter", st.where,
+                         "for an absolute name the stored path is `%s`, not a copy of the name given: the file that is opened, the name econf_getPath() reports and "
+                         "the name the same-name masking compares are no longer the name the file was found under (a `dir/..` with dir a symbolic link "
+                         "even names another file)" % render(rhs), key="abs-path-rewritten")
         else:
             ctx.ok("L16", "a file found under an absolute name is stored under that name", gap.where, "no link resolution at all")
     else:
